@@ -51,6 +51,20 @@ def input_loops(fn, s):
     return [ev for ev, ctx in s.walk() if ev.kind == "loop" and not ctx.loops and any(x == uris for x in subterms(ev.b))]
 
 
+def _memo_asks_the_trie(s, name: str) -> bool:
+    """Every non-None value the loop-carried local ``name`` is given is assigned under a test that consults the
+    supplied converter's trie / reverse table (``converter.trie.keys(prefix=..)``, ``.. in converter.reverse_prefix_map``)."""
+    binds = [(ev, ctx) for ev, ctx in s.walk() if ev.kind == "bind" and ev.a == name and ctx.loops and not is_const(ev.b, None)]
+    if not binds:
+        return False
+    for ev, ctx in binds:
+        asks = any(g.kind == "guard" and any(op(x) == "attr" and x[2] in ("trie", "reverse_prefix_map", "prefix_map") for x in subterms(g.a)) for g in ctx.guards)
+        no_converter = any(g.kind == "guard" and g.b is True and op(g.a) == "cmp" and g.a[1] == "is" and op(g.a[2]) == "param" and is_const(g.a[3], None) for g in ctx.guards)
+        if not (asks or no_converter):
+            return False
+    return True
+
+
 @obligation("C19-D1", "order/repetition insensitivity: the only state carried across input URIs is a defaultdict(set) updated by keyed set.add", floor=1)
 def d1(cx: Cx, ob: Ob) -> None:
     fn, s = helper(cx, ob)
@@ -88,7 +102,9 @@ def d1(cx: Cx, ob: Ob) -> None:
                     for t in (ev.a, ev.b):
                         if isinstance(t, tuple):
                             for x in subterms(t):
-                                if op(x) == "phi" and x[2] == lp.c:
+                                if op(x) == "phi" and x[2] == lp.c and _memo_asks_the_trie(s, x[1]):
+                                    ob.undecide(f"variable `{x[1]}` carries a remembered URI prefix from one input URI to the next, and is set only after the supplied converter's trie / tables were asked about it: that the test asked makes the shortcut right for every later URI is not decided")
+                                elif op(x) == "phi" and x[2] == lp.c:
                                     ob.violate(fn.qualname, where(fn, ev.line), f"variable `{x[1]}` carries a value from one input URI to the next: the result depends on the order of the URIs", detail=f"carried:{x[1]}")
                     if ev.kind in ("loop", "while") and ev.body:
                         scan(ev.body, depth + 1)
@@ -372,6 +388,10 @@ def d5(cx: Cx, ob: Ob) -> None:
             # `converter.compress(uri) is None` holds
             if pol is True and op(a) == "cmp" and a[1] in ("is", "==") and is_const(a[3], None) and op(a[2]) == "call" and op(a[2][1]) == "attr" and a[2][1][1] == conv and a[2][1][2] in ("compress", "parse_uri") and a[2][2][:1] == (uri,):
                 ok = True
+        carried = {x[1] for g in ctx.guards if g.kind == "guard" for x in subterms(g.a) if op(x) == "phi"}
+        if not ok and carried and all(_memo_asks_the_trie(s, nm_) for nm_ in carried):
+            ob.undecide(f"the known-URI test is skipped under a condition on {sorted(carried)}, a memo that is set only after the supplied converter's trie / tables were asked: whether the skip is right is not decided")
+            continue
         if not ok:
             ob.violate(
                 fn.qualname,
